@@ -1,6 +1,8 @@
 package main
 
 import (
+	"bytes"
+	"encoding/binary"
 	"errors"
 	"fmt"
 	"strconv"
@@ -56,9 +58,17 @@ func init() {
 		if it == nil {
 			return "err no-entry"
 		}
-		res, err := it.Merge(mustUnhx(a[9]))
+		old := mustUnhx(a[9])
+		res, err := it.Merge(old)
 		if err != nil {
 			return "err header"
+		}
+		// C14 oracle: whatever the merge routine decides to write is read back by an
+		// independent reader of the documented format
+		if len(res) > 0 && !bytes.Equal(res, old) {
+			if why := writtenNotWF(res, u64(a[2]), a[4] == "1"); why != "" {
+				return "FAIL c14-written-value-not-well-formed " + why + " value=" + hx(res)
+			}
 		}
 		return "ok " + optHx(res)
 	}
@@ -101,4 +111,43 @@ func mkNative(fv, defTs, txn, cutoff, pad string, kv snapshot.KV) *syncer.Native
 		return nil
 	}
 	return it
+}
+
+// writtenNotWF reads a value Lightning Stream wrote with an independent reader of the
+// documented layout (docs/schema-native.md): 0-7 timestamp, 8-15 transaction id, 16 version,
+// 17 flags, 18-21 reserved, 22-23 number of 8-byte extension blocks. It returns "" when the
+// value is a well-formed version-0 header with only synced flags, zero reserved bytes, the id
+// of the writing transaction, the expected number of extension blocks present, and an empty
+// application value when the deleted flag is set.
+func writtenNotWF(v []byte, txn uint64, padded bool) string {
+	if len(v) < 24 {
+		return "shorter-than-header"
+	}
+	if v[16] != 0 {
+		return "version"
+	}
+	if v[17]&^0x01 != 0 {
+		return fmt.Sprintf("flags-outside-synced-set-0x%02x", v[17])
+	}
+	if v[18]|v[19]|v[20]|v[21] != 0 {
+		return "reserved-nonzero"
+	}
+	if binary.BigEndian.Uint64(v[8:16]) != txn {
+		return "txnid"
+	}
+	n := int(binary.BigEndian.Uint16(v[22:24]))
+	want := 0
+	if padded {
+		want = 1
+	}
+	if n != want {
+		return "extension-count"
+	}
+	if len(v) < 24+8*n {
+		return "extension-bytes-missing"
+	}
+	if v[17]&0x01 != 0 && len(v) != 24+8*n {
+		return "deleted-with-value"
+	}
+	return ""
 }
